@@ -26,6 +26,7 @@ end-to-end MLE clauses of the other streams remain); it is not an alarm.
 from __future__ import annotations
 
 import json
+import math
 from fractions import Fraction
 
 import numpy as np
@@ -324,9 +325,17 @@ def run_case(ctx: Ctx, case: dict) -> list[str]:
             probs.append(f"oracle: MLE _cptp_proj: the result is not a positive semi-definite matrix "
                          f"(smallest eigenvalue {ev.min():.3g})")
         dev = np.abs(ptrace(got, d) - np.eye(d)).max()
-        if dev > 2e-2:
-            probs.append(f"oracle: MLE _cptp_proj: the result is not trace preserving within the stopping tolerance "
-                         f"(partial trace deviates from the identity by {dev:.3g})")
+        # Trace preservation of the result is NOT exact (the loop ends on the CP step).  When the loop ends by its
+        # stopping test, ||x_k - y_k||_F = ||q_0 - q_k||_F < 1e-2 with y_k exactly trace preserving, hence every entry
+        # of the partial trace is within sqrt(d) * 1e-2 of the identity; when the iteration cap (1000) ends it there is
+        # no bound at all.  The clause is therefore evaluated only for starts next to the CPTP set, where Dykstra's
+        # iteration stops within a few passes; elsewhere the deviation is recorded, not judged.
+        if case["start"] in ("cptp-point", "near"):
+            if dev > math.sqrt(d) * 1.0e-2 * 1.05 + 1e-9:
+                probs.append(f"oracle: MLE _cptp_proj: the result is not trace preserving within the stopping tolerance "
+                             f"(partial trace deviates from the identity by {dev:.3g}, start next to the CPTP set)")
+        else:
+            ctx.count("proj:cptp:tp-deviation>1e-2" if dev > 1e-2 else "proj:cptp:tp-deviation<=1e-2")
         if case["start"] == "cptp-point" and np.abs(got - a).max() > 1e-6:
             probs.append(f"oracle: MLE _cptp_proj moved a matrix that is already CPTP by {np.abs(got - a).max():.3g}")
         if not np.array_equal(arg, a):
